@@ -171,6 +171,17 @@ pub fn generate(seed: u64, thorough: bool) -> Gen {
     add(stream_lengths(), 3_000, 0, &mut rng, &mut docs);
     add(ref_chains(), if thorough { 80_000 } else { 600 }, 0, &mut rng, &mut docs);
     docs.extend(functions());
+    add(annotations(k), if thorough { lim } else { 1_200 }, 0, &mut rng, &mut docs);
+    for kind in ["nametree", "numbertree", "fonts"] {
+        for levels in [3, 12, 40, 70] {
+            docs.push(ladder(kind, levels));
+        }
+    }
+    for kind in ["parents", "fonts"] {
+        for n in [20, 70, 3000] {
+            docs.push(deep_chain(kind, n));
+        }
+    }
     add(images(), 10, joint, &mut rng, &mut docs);
     add(predictor(), 10, joint / 2, &mut rng, &mut docs);
     add(runlength(), 10, 0, &mut rng, &mut docs);
